@@ -176,7 +176,7 @@ fn usv_union_2_1() {
     union_nm::<2, 1>()
 }
 
-//@H props=C20,C17,C04 tier=thorough kind=bounded cap=1500 bound="operand lengths (2,2)" domain="all u8 values"
+//@H tier_C17=thorough tier_C04=thorough props=C20,C17,C04 tier=quick kind=bounded cap=1500 bound="operand lengths (2,2)" domain="all u8 values"
 #[cfg_attr(kani, kani::proof)]
 #[cfg_attr(kani, kani::unwind(9))]
 #[cfg_attr(verif_replay, test)]
